@@ -730,6 +730,9 @@ func (ipcp *IPCPStateMachine) timeout() {
 			ipcp.setState(IPCPStateReqSent)
 		}
 	} else {
+		// Giving up: no restart timer may stay armed (this callback can belong to an
+		// instance that was already replaced by a newer one).
+		ipcp.stopTimer()
 		switch ipcp.state {
 		case IPCPStateClosing:
 			ipcp.setState(IPCPStateClosed)
